@@ -12,8 +12,8 @@ import (
 
 func init() {
 	props["C09"] = &propCheck{
-		lean:    []string{"JSight.Props.C09", "JSight.Props.C16", "JSight.Props.C19"},
-		exes:    []string{},
+		lean:    []string{"JSight.Props.C09", "JSight.Props.C09_Build", "JSight.Props.C16", "JSight.Props.C19"},
+		exes:    []string{"jsight-build"},
 		run:     runC09,
 		rule:    "accepted projects: generated documents, the accepted fixture files, byte-level mutants of fixtures and generated documents with hostile names/paths (spaces, quotes, non-ASCII, invalid UTF-8), documents whose JSON-RPC (method, path) pairs differ while their id texts coincide (both orders); every accepted one is serialised and read back with a strict (duplicate-key-detecting, UTF-8-validating) JSON reader; non-trivial = accepted with >= 2 interactions; distinct = distinct input bytes",
 		assume:  []string{"encoding/json produces valid JSON text for the values handed to it (trusted); the check reads that text back strictly"},
@@ -216,6 +216,7 @@ func collisionDoc(r *Rng) []byte {
 
 func runC09(ctx *Ctx) {
 	r := ctx.Rng.Fork()
+	buildCorrSuite(ctx, r.Fork(), ctx.Budget(300, 30000))
 	var docs [][]byte
 	for i := 0; i < ctx.Budget(200, 5000); i++ {
 		docs = append(docs, collisionDoc(r))
